@@ -37,6 +37,20 @@ HARNESSES = [
         dict(defs=dict(), unwind=5, unwindset=_US, cap=600)),
 ]
 
+HARNESSES += [
+ dict(id='c11_db_remap', property='C11', src='c11_db_remap.cxx', entry='harness_c11_db_remap',
+      tus=[_DB + t for t in ('interrogateDatabase.cxx', 'indexRemapper.cxx', 'interrogateType.cxx', 'interrogateFunction.cxx',
+                             'interrogateFunctionWrapper.cxx', 'interrogateElement.cxx', 'interrogateManifest.cxx', 'interrogateMakeSeq.cxx',
+                             'interrogateComponent.cxx')],
+      desc='InterrogateDatabase::remap_indices(first, remap) on a database of 2 wrappers, 2 functions, 2 types, 1 manifest, 1 element, 1 make_seq',
+      domain='concrete sparse old indices (2,3,4,5,6,7,8,9,12); every index-valued scalar field symbolic over {0} + the existing '
+             'entities of its kind; flags/values over all of int; first in 1..FIRST_MAX; records without strings and vectors; real IndexRemapper',
+      oracle='wrappers get first, first+1; then functions, types, manifests, elements, make_seqs in old-index order; return value = '
+             '_next_index = first + 9; the remapper maps every old index to its new one; every reference field and every '
+             'enumeration vector entry equals the new index of the entity it referred to; other fields unchanged',
+      bounds={'quick': dict(defs=dict(FIRST_MAX=1), unwind=6, unwindset=_US, cap=900)}),
+]
+
 PROPERTY_INFO = {'C11': {'level': 'model_checking',
          'explanation': 'bounded symbolic execution (CBMC) of the real index-rewriting code lowered from /repo',
          'outside': 'agreement of the generated C signatures with the database (checked where the wrappers are called, C01); '
